@@ -49,9 +49,11 @@ MF_SCALARS = [SCALARS[0], SCALARS[3], SCALARS[4], SCALARS[5]]
 
 ALPHA_Q = ["RG2", "RG23", "HP1", "GL32", "PSrg4", "LM1", "U2", "DOF3"]
 ALPHA_EXTRA = ["RGh3", "GL23", "PSlm2", "PSrg32", "U12", "RG2def", "GL41", "LM21", "RG3d", "U3"]
-TRIPLE_Q = ["RG2", "GL32", "U2"]
+TRIPLE_Q = ["RG2", "GL32"]
+# a 2-axis space in every position (axis cursor), Unstructured in every position, three non-uniform volumes
 TRIPLES_Q_EXTRA = [("GL32", "RG23", "PSrg4"), ("RG2", "RG23", "DOF3"), ("PSrg4", "U2", "RG23"),
-                   ("RG23", "GL32", "RG2"), ("LM1", "DOF3", "RG2")]
+                   ("RG23", "GL32", "RG2"), ("LM1", "DOF3", "RG2"), ("U2", "GL32", "RG2"), ("RG2", "GL32", "U2"),
+                   ("DOF3", "PSrg4", "GL32")]
 
 # operand pairs on DIFFERENT domains: (name, domA, domB); equal shapes first (only the domain check can reject)
 MISMATCH = [
